@@ -1,7 +1,6 @@
 /- GENERATED on every run by harness/corr/C18_table.py from src/py_gql/lang/visitor.py and src/py_gql/lang/ast.py
    (+ witness documents parsed by src/py_gql/lang/parser.py).
    Do not edit: the check rewrites this file from /repo's working tree.
-   EXTRACTION MODE: dynamic (the static extractor did not recognise a shape; table observed by running the real visitor on one maximal instance per node class).
 -/
 
 import PyGqlModel.Visit
@@ -57,251 +56,227 @@ def slots : List (String × List String) := [
 
 /-- registry of `ASTVisitor.visit`: node kind ↦ `_visit_*` method -/
 def visitDispatch : List (String × String) := [
-  ("Argument", "_dyn_Argument"),
-  ("BooleanValue", "_dyn_BooleanValue"),
-  ("Directive", "_dyn_Directive"),
-  ("DirectiveDefinition", "_dyn_DirectiveDefinition"),
-  ("Document", "_dyn_Document"),
-  ("EnumTypeDefinition", "_dyn_EnumTypeDefinition"),
-  ("EnumTypeExtension", "_dyn_EnumTypeExtension"),
-  ("EnumValue", "_dyn_EnumValue"),
-  ("EnumValueDefinition", "_dyn_EnumValueDefinition"),
-  ("Field", "_dyn_Field"),
-  ("FieldDefinition", "_dyn_FieldDefinition"),
-  ("FloatValue", "_dyn_FloatValue"),
-  ("FragmentDefinition", "_dyn_FragmentDefinition"),
-  ("FragmentSpread", "_dyn_FragmentSpread"),
-  ("InlineFragment", "_dyn_InlineFragment"),
-  ("InputObjectTypeDefinition", "_dyn_InputObjectTypeDefinition"),
-  ("InputObjectTypeExtension", "_dyn_InputObjectTypeExtension"),
-  ("InputValueDefinition", "_dyn_InputValueDefinition"),
-  ("IntValue", "_dyn_IntValue"),
-  ("InterfaceTypeDefinition", "_dyn_InterfaceTypeDefinition"),
-  ("InterfaceTypeExtension", "_dyn_InterfaceTypeExtension"),
-  ("ListType", "_dyn_ListType"),
-  ("ListValue", "_dyn_ListValue"),
-  ("NamedType", "_dyn_NamedType"),
-  ("NonNullType", "_dyn_NonNullType"),
-  ("NullValue", "_dyn_NullValue"),
-  ("ObjectField", "_dyn_ObjectField"),
-  ("ObjectTypeDefinition", "_dyn_ObjectTypeDefinition"),
-  ("ObjectTypeExtension", "_dyn_ObjectTypeExtension"),
-  ("ObjectValue", "_dyn_ObjectValue"),
-  ("OperationDefinition", "_dyn_OperationDefinition"),
-  ("OperationTypeDefinition", "_dyn_OperationTypeDefinition"),
-  ("ScalarTypeDefinition", "_dyn_ScalarTypeDefinition"),
-  ("ScalarTypeExtension", "_dyn_ScalarTypeExtension"),
-  ("SchemaDefinition", "_dyn_SchemaDefinition"),
-  ("SchemaExtension", "_dyn_SchemaExtension"),
-  ("SelectionSet", "_dyn_SelectionSet"),
-  ("StringValue", "_dyn_StringValue"),
-  ("UnionTypeDefinition", "_dyn_UnionTypeDefinition"),
-  ("UnionTypeExtension", "_dyn_UnionTypeExtension"),
-  ("Variable", "_dyn_Variable"),
-  ("VariableDefinition", "_dyn_VariableDefinition")
+  ("Document", "_visit_document"),
+  ("OperationDefinition", "_visit_operation_definition"),
+  ("VariableDefinition", "_visit_variable_definition"),
+  ("Variable", "_visit_variable"),
+  ("SelectionSet", "_visit_selection_set"),
+  ("Field", "_visit_field"),
+  ("Argument", "_visit_argument"),
+  ("FragmentSpread", "_visit_fragment_spread"),
+  ("InlineFragment", "_visit_inline_fragment"),
+  ("FragmentDefinition", "_visit_fragment_definition"),
+  ("IntValue", "_visit_value"),
+  ("FloatValue", "_visit_value"),
+  ("BooleanValue", "_visit_value"),
+  ("NullValue", "_visit_value"),
+  ("EnumValue", "_visit_value"),
+  ("StringValue", "_visit_value"),
+  ("ListValue", "_visit_value"),
+  ("ObjectValue", "_visit_value"),
+  ("ObjectField", "_visit_object_field"),
+  ("Directive", "_visit_directive"),
+  ("NonNullType", "_visit_type"),
+  ("ListType", "_visit_type"),
+  ("NamedType", "_visit_type"),
+  ("SchemaDefinition", "_visit_schema_definition"),
+  ("OperationTypeDefinition", "_visit_operation_type_definition"),
+  ("ScalarTypeDefinition", "_visit_scalar_type_definition"),
+  ("ObjectTypeDefinition", "_visit_object_type_definition"),
+  ("FieldDefinition", "_visit_field_definition"),
+  ("InputValueDefinition", "_visit_input_value_definition"),
+  ("InterfaceTypeDefinition", "_visit_interface_type_definition"),
+  ("UnionTypeDefinition", "_visit_union_type_definition"),
+  ("EnumTypeDefinition", "_visit_enum_type_definition"),
+  ("EnumValueDefinition", "_visit_enum_value_definition"),
+  ("InputObjectTypeDefinition", "_visit_input_object_type_definition"),
+  ("SchemaExtension", "_visit_schema_definition"),
+  ("ScalarTypeExtension", "_visit_scalar_type_definition"),
+  ("ObjectTypeExtension", "_visit_object_type_definition"),
+  ("InterfaceTypeExtension", "_visit_interface_type_definition"),
+  ("UnionTypeExtension", "_visit_union_type_definition"),
+  ("EnumTypeExtension", "_visit_enum_type_definition"),
+  ("InputObjectTypeExtension", "_visit_input_object_type_definition"),
+  ("DirectiveDefinition", "_visit_directive_definition")
 ]
 
 /-- undecorated `_visit_*` dispatchers: (name, registry kind ↦ method, default method) -/
 def dispatchers : List (String × Dispatcher) := [
-  ("_dyn_by_kind", { registry := [("Argument", "_dyn_Argument"), ("BooleanValue", "_dyn_BooleanValue"), ("Directive", "_dyn_Directive"), ("DirectiveDefinition", "_dyn_DirectiveDefinition"), ("Document", "_dyn_Document"), ("EnumTypeDefinition", "_dyn_EnumTypeDefinition"), ("EnumTypeExtension", "_dyn_EnumTypeExtension"), ("EnumValue", "_dyn_EnumValue"), ("EnumValueDefinition", "_dyn_EnumValueDefinition"), ("Field", "_dyn_Field"), ("FieldDefinition", "_dyn_FieldDefinition"), ("FloatValue", "_dyn_FloatValue"), ("FragmentDefinition", "_dyn_FragmentDefinition"), ("FragmentSpread", "_dyn_FragmentSpread"), ("InlineFragment", "_dyn_InlineFragment"), ("InputObjectTypeDefinition", "_dyn_InputObjectTypeDefinition"), ("InputObjectTypeExtension", "_dyn_InputObjectTypeExtension"), ("InputValueDefinition", "_dyn_InputValueDefinition"), ("IntValue", "_dyn_IntValue"), ("InterfaceTypeDefinition", "_dyn_InterfaceTypeDefinition"), ("InterfaceTypeExtension", "_dyn_InterfaceTypeExtension"), ("ListType", "_dyn_ListType"), ("ListValue", "_dyn_ListValue"), ("NamedType", "_dyn_NamedType"), ("NonNullType", "_dyn_NonNullType"), ("NullValue", "_dyn_NullValue"), ("ObjectField", "_dyn_ObjectField"), ("ObjectTypeDefinition", "_dyn_ObjectTypeDefinition"), ("ObjectTypeExtension", "_dyn_ObjectTypeExtension"), ("ObjectValue", "_dyn_ObjectValue"), ("OperationDefinition", "_dyn_OperationDefinition"), ("OperationTypeDefinition", "_dyn_OperationTypeDefinition"), ("ScalarTypeDefinition", "_dyn_ScalarTypeDefinition"), ("ScalarTypeExtension", "_dyn_ScalarTypeExtension"), ("SchemaDefinition", "_dyn_SchemaDefinition"), ("SchemaExtension", "_dyn_SchemaExtension"), ("SelectionSet", "_dyn_SelectionSet"), ("StringValue", "_dyn_StringValue"), ("UnionTypeDefinition", "_dyn_UnionTypeDefinition"), ("UnionTypeExtension", "_dyn_UnionTypeExtension"), ("Variable", "_dyn_Variable"), ("VariableDefinition", "_dyn_VariableDefinition")], dflt := none })
+  ("_visit_definition", { registry := [("OperationDefinition", "_visit_operation_definition"), ("FragmentDefinition", "_visit_fragment_definition"), ("SchemaDefinition", "_visit_schema_definition"), ("ScalarTypeDefinition", "_visit_scalar_type_definition"), ("ObjectTypeDefinition", "_visit_object_type_definition"), ("InterfaceTypeDefinition", "_visit_interface_type_definition"), ("UnionTypeDefinition", "_visit_union_type_definition"), ("EnumTypeDefinition", "_visit_enum_type_definition"), ("InputObjectTypeDefinition", "_visit_input_object_type_definition"), ("SchemaExtension", "_visit_schema_definition"), ("ScalarTypeExtension", "_visit_scalar_type_definition"), ("ObjectTypeExtension", "_visit_object_type_definition"), ("InterfaceTypeExtension", "_visit_interface_type_definition"), ("UnionTypeExtension", "_visit_union_type_definition"), ("EnumTypeExtension", "_visit_enum_type_definition"), ("InputObjectTypeExtension", "_visit_input_object_type_definition"), ("DirectiveDefinition", "_visit_directive_definition")], dflt := none }),
+  ("_visit_selection", { registry := [("Field", "_visit_field"), ("FragmentSpread", "_visit_fragment_spread"), ("InlineFragment", "_visit_inline_fragment")], dflt := none }),
+  ("_visit_input_value", { registry := [("Variable", "_visit_variable")], dflt := some "_visit_value" })
 ]
 
 /-- body of every `@_visit_method`: the ORDERED child traversal steps -/
 def methods : List (String × List Step) := [
-  ("_dyn_Argument", [
-    { kinds := none, attr := "value", shape := .one, guard := .always, assign := true, target := (.disp "_dyn_by_kind") }]),
-  ("_dyn_BooleanValue", []),
-  ("_dyn_Directive", [
-    { kinds := none, attr := "arguments", shape := .many, guard := .always, assign := true, target := (.disp "_dyn_by_kind") }]),
-  ("_dyn_DirectiveDefinition", [
-    { kinds := none, attr := "arguments", shape := .many, guard := .always, assign := true, target := (.disp "_dyn_by_kind") }]),
-  ("_dyn_Document", [
-    { kinds := none, attr := "definitions", shape := .many, guard := .always, assign := true, target := (.disp "_dyn_by_kind") }]),
-  ("_dyn_EnumTypeDefinition", [
-    { kinds := none, attr := "directives", shape := .many, guard := .always, assign := true, target := (.disp "_dyn_by_kind") },
-    { kinds := none, attr := "values", shape := .many, guard := .always, assign := true, target := (.disp "_dyn_by_kind") }]),
-  ("_dyn_EnumTypeExtension", [
-    { kinds := none, attr := "directives", shape := .many, guard := .always, assign := true, target := (.disp "_dyn_by_kind") },
-    { kinds := none, attr := "values", shape := .many, guard := .always, assign := true, target := (.disp "_dyn_by_kind") }]),
-  ("_dyn_EnumValue", []),
-  ("_dyn_EnumValueDefinition", [
-    { kinds := none, attr := "directives", shape := .many, guard := .always, assign := true, target := (.disp "_dyn_by_kind") }]),
-  ("_dyn_Field", [
-    { kinds := none, attr := "arguments", shape := .many, guard := .always, assign := true, target := (.disp "_dyn_by_kind") },
-    { kinds := none, attr := "directives", shape := .many, guard := .always, assign := true, target := (.disp "_dyn_by_kind") },
-    { kinds := none, attr := "selection_set", shape := .one, guard := .notNone, assign := true, target := (.disp "_dyn_by_kind") }]),
-  ("_dyn_FieldDefinition", [
-    { kinds := none, attr := "type", shape := .one, guard := .always, assign := true, target := (.disp "_dyn_by_kind") },
-    { kinds := none, attr := "arguments", shape := .many, guard := .always, assign := true, target := (.disp "_dyn_by_kind") },
-    { kinds := none, attr := "directives", shape := .many, guard := .always, assign := true, target := (.disp "_dyn_by_kind") }]),
-  ("_dyn_FloatValue", []),
-  ("_dyn_FragmentDefinition", [
-    { kinds := none, attr := "directives", shape := .many, guard := .always, assign := true, target := (.disp "_dyn_by_kind") },
-    { kinds := none, attr := "selection_set", shape := .one, guard := .always, assign := true, target := (.disp "_dyn_by_kind") }]),
-  ("_dyn_FragmentSpread", [
-    { kinds := none, attr := "directives", shape := .many, guard := .always, assign := true, target := (.disp "_dyn_by_kind") }]),
-  ("_dyn_InlineFragment", [
-    { kinds := none, attr := "directives", shape := .many, guard := .always, assign := true, target := (.disp "_dyn_by_kind") },
-    { kinds := none, attr := "selection_set", shape := .one, guard := .always, assign := true, target := (.disp "_dyn_by_kind") }]),
-  ("_dyn_InputObjectTypeDefinition", [
-    { kinds := none, attr := "directives", shape := .many, guard := .always, assign := true, target := (.disp "_dyn_by_kind") },
-    { kinds := none, attr := "fields", shape := .many, guard := .always, assign := true, target := (.disp "_dyn_by_kind") }]),
-  ("_dyn_InputObjectTypeExtension", [
-    { kinds := none, attr := "directives", shape := .many, guard := .always, assign := true, target := (.disp "_dyn_by_kind") },
-    { kinds := none, attr := "fields", shape := .many, guard := .always, assign := true, target := (.disp "_dyn_by_kind") }]),
-  ("_dyn_InputValueDefinition", [
-    { kinds := none, attr := "type", shape := .one, guard := .always, assign := true, target := (.disp "_dyn_by_kind") },
-    { kinds := none, attr := "default_value", shape := .one, guard := .notNone, assign := true, target := (.disp "_dyn_by_kind") },
-    { kinds := none, attr := "directives", shape := .many, guard := .always, assign := true, target := (.disp "_dyn_by_kind") }]),
-  ("_dyn_IntValue", []),
-  ("_dyn_InterfaceTypeDefinition", [
-    { kinds := none, attr := "directives", shape := .many, guard := .always, assign := true, target := (.disp "_dyn_by_kind") },
-    { kinds := none, attr := "fields", shape := .many, guard := .always, assign := true, target := (.disp "_dyn_by_kind") }]),
-  ("_dyn_InterfaceTypeExtension", [
-    { kinds := none, attr := "directives", shape := .many, guard := .always, assign := true, target := (.disp "_dyn_by_kind") },
-    { kinds := none, attr := "fields", shape := .many, guard := .always, assign := true, target := (.disp "_dyn_by_kind") }]),
-  ("_dyn_ListType", []),
-  ("_dyn_ListValue", [
-    { kinds := none, attr := "values", shape := .many, guard := .always, assign := true, target := (.disp "_dyn_by_kind") }]),
-  ("_dyn_NamedType", []),
-  ("_dyn_NonNullType", []),
-  ("_dyn_NullValue", []),
-  ("_dyn_ObjectField", [
-    { kinds := none, attr := "value", shape := .one, guard := .always, assign := true, target := (.disp "_dyn_by_kind") }]),
-  ("_dyn_ObjectTypeDefinition", [
-    { kinds := none, attr := "interfaces", shape := .many, guard := .always, assign := true, target := (.disp "_dyn_by_kind") },
-    { kinds := none, attr := "directives", shape := .many, guard := .always, assign := true, target := (.disp "_dyn_by_kind") },
-    { kinds := none, attr := "fields", shape := .many, guard := .always, assign := true, target := (.disp "_dyn_by_kind") }]),
-  ("_dyn_ObjectTypeExtension", [
-    { kinds := none, attr := "interfaces", shape := .many, guard := .always, assign := true, target := (.disp "_dyn_by_kind") },
-    { kinds := none, attr := "directives", shape := .many, guard := .always, assign := true, target := (.disp "_dyn_by_kind") },
-    { kinds := none, attr := "fields", shape := .many, guard := .always, assign := true, target := (.disp "_dyn_by_kind") }]),
-  ("_dyn_ObjectValue", [
-    { kinds := none, attr := "fields", shape := .many, guard := .always, assign := true, target := (.disp "_dyn_by_kind") }]),
-  ("_dyn_OperationDefinition", [
-    { kinds := none, attr := "variable_definitions", shape := .many, guard := .always, assign := true, target := (.disp "_dyn_by_kind") },
-    { kinds := none, attr := "directives", shape := .many, guard := .always, assign := true, target := (.disp "_dyn_by_kind") },
-    { kinds := none, attr := "selection_set", shape := .one, guard := .always, assign := true, target := (.disp "_dyn_by_kind") }]),
-  ("_dyn_OperationTypeDefinition", [
-    { kinds := none, attr := "type", shape := .one, guard := .always, assign := true, target := (.disp "_dyn_by_kind") }]),
-  ("_dyn_ScalarTypeDefinition", [
-    { kinds := none, attr := "directives", shape := .many, guard := .always, assign := true, target := (.disp "_dyn_by_kind") }]),
-  ("_dyn_ScalarTypeExtension", [
-    { kinds := none, attr := "directives", shape := .many, guard := .always, assign := true, target := (.disp "_dyn_by_kind") }]),
-  ("_dyn_SchemaDefinition", [
-    { kinds := none, attr := "operation_types", shape := .many, guard := .always, assign := true, target := (.disp "_dyn_by_kind") },
-    { kinds := none, attr := "directives", shape := .many, guard := .always, assign := true, target := (.disp "_dyn_by_kind") }]),
-  ("_dyn_SchemaExtension", [
-    { kinds := none, attr := "operation_types", shape := .many, guard := .always, assign := true, target := (.disp "_dyn_by_kind") },
-    { kinds := none, attr := "directives", shape := .many, guard := .always, assign := true, target := (.disp "_dyn_by_kind") }]),
-  ("_dyn_SelectionSet", [
-    { kinds := none, attr := "selections", shape := .many, guard := .always, assign := true, target := (.disp "_dyn_by_kind") }]),
-  ("_dyn_StringValue", []),
-  ("_dyn_UnionTypeDefinition", [
-    { kinds := none, attr := "directives", shape := .many, guard := .always, assign := true, target := (.disp "_dyn_by_kind") },
-    { kinds := none, attr := "types", shape := .many, guard := .always, assign := true, target := (.disp "_dyn_by_kind") }]),
-  ("_dyn_UnionTypeExtension", [
-    { kinds := none, attr := "directives", shape := .many, guard := .always, assign := true, target := (.disp "_dyn_by_kind") },
-    { kinds := none, attr := "types", shape := .many, guard := .always, assign := true, target := (.disp "_dyn_by_kind") }]),
-  ("_dyn_Variable", []),
-  ("_dyn_VariableDefinition", [
-    { kinds := none, attr := "default_value", shape := .one, guard := .notNone, assign := true, target := (.disp "_dyn_by_kind") },
-    { kinds := none, attr := "type", shape := .one, guard := .always, assign := true, target := (.disp "_dyn_by_kind") }])
+  ("_visit_document", [
+    { kinds := none, attr := "definitions", shape := .many, guard := .always, assign := true, target := (.disp "_visit_definition") }]),
+  ("_visit_operation_definition", [
+    { kinds := none, attr := "variable_definitions", shape := .many, guard := .always, assign := true, target := (.method "_visit_variable_definition") },
+    { kinds := none, attr := "directives", shape := .many, guard := .always, assign := true, target := (.method "_visit_directive") },
+    { kinds := none, attr := "selection_set", shape := .one, guard := .always, assign := true, target := (.method "_visit_selection_set") }]),
+  ("_visit_fragment_definition", [
+    { kinds := none, attr := "directives", shape := .many, guard := .always, assign := true, target := (.method "_visit_directive") },
+    { kinds := none, attr := "selection_set", shape := .one, guard := .always, assign := true, target := (.method "_visit_selection_set") }]),
+  ("_visit_variable_definition", [
+    { kinds := none, attr := "default_value", shape := .one, guard := .truthy, assign := true, target := (.method "_visit_value") },
+    { kinds := none, attr := "type", shape := .one, guard := .always, assign := true, target := (.method "_visit_type") }]),
+  ("_visit_type", []),
+  ("_visit_directive", [
+    { kinds := none, attr := "arguments", shape := .many, guard := .always, assign := true, target := (.method "_visit_argument") }]),
+  ("_visit_argument", [
+    { kinds := none, attr := "value", shape := .one, guard := .always, assign := true, target := (.disp "_visit_input_value") }]),
+  ("_visit_selection_set", [
+    { kinds := none, attr := "selections", shape := .many, guard := .always, assign := true, target := (.disp "_visit_selection") }]),
+  ("_visit_field", [
+    { kinds := none, attr := "arguments", shape := .many, guard := .always, assign := true, target := (.method "_visit_argument") },
+    { kinds := none, attr := "directives", shape := .many, guard := .always, assign := true, target := (.method "_visit_directive") },
+    { kinds := none, attr := "selection_set", shape := .one, guard := .notNone, assign := true, target := (.method "_visit_selection_set") }]),
+  ("_visit_fragment_spread", [
+    { kinds := none, attr := "directives", shape := .many, guard := .always, assign := true, target := (.method "_visit_directive") }]),
+  ("_visit_inline_fragment", [
+    { kinds := none, attr := "directives", shape := .many, guard := .always, assign := true, target := (.method "_visit_directive") },
+    { kinds := none, attr := "selection_set", shape := .one, guard := .always, assign := true, target := (.method "_visit_selection_set") }]),
+  ("_visit_variable", []),
+  ("_visit_value", [
+    { kinds := some ["ObjectValue"], attr := "fields", shape := .many, guard := .always, assign := true, target := (.method "_visit_object_field") },
+    { kinds := some ["ListValue"], attr := "values", shape := .many, guard := .always, assign := true, target := (.disp "_visit_input_value") }]),
+  ("_visit_object_field", [
+    { kinds := none, attr := "value", shape := .one, guard := .always, assign := true, target := (.method "_visit_value") }]),
+  ("_visit_schema_definition", [
+    { kinds := none, attr := "operation_types", shape := .many, guard := .always, assign := true, target := (.method "_visit_operation_type_definition") },
+    { kinds := none, attr := "directives", shape := .many, guard := .always, assign := true, target := (.method "_visit_directive") }]),
+  ("_visit_operation_type_definition", [
+    { kinds := none, attr := "type", shape := .one, guard := .always, assign := true, target := (.method "_visit_type") }]),
+  ("_visit_scalar_type_definition", [
+    { kinds := none, attr := "directives", shape := .many, guard := .always, assign := true, target := (.method "_visit_directive") }]),
+  ("_visit_object_type_definition", [
+    { kinds := none, attr := "interfaces", shape := .many, guard := .always, assign := true, target := (.method "_visit_type") },
+    { kinds := none, attr := "directives", shape := .many, guard := .always, assign := true, target := (.method "_visit_directive") },
+    { kinds := none, attr := "fields", shape := .many, guard := .always, assign := true, target := (.method "_visit_field_definition") }]),
+  ("_visit_interface_type_definition", [
+    { kinds := none, attr := "directives", shape := .many, guard := .always, assign := true, target := (.method "_visit_directive") },
+    { kinds := none, attr := "fields", shape := .many, guard := .always, assign := true, target := (.method "_visit_field_definition") }]),
+  ("_visit_union_type_definition", [
+    { kinds := none, attr := "directives", shape := .many, guard := .always, assign := true, target := (.method "_visit_directive") },
+    { kinds := none, attr := "types", shape := .many, guard := .always, assign := true, target := (.method "_visit_type") }]),
+  ("_visit_enum_type_definition", [
+    { kinds := none, attr := "directives", shape := .many, guard := .always, assign := true, target := (.method "_visit_directive") },
+    { kinds := none, attr := "values", shape := .many, guard := .always, assign := true, target := (.method "_visit_enum_value_definition") }]),
+  ("_visit_input_object_type_definition", [
+    { kinds := none, attr := "directives", shape := .many, guard := .always, assign := true, target := (.method "_visit_directive") },
+    { kinds := none, attr := "fields", shape := .many, guard := .always, assign := true, target := (.method "_visit_input_value_definition") }]),
+  ("_visit_field_definition", [
+    { kinds := none, attr := "type", shape := .one, guard := .always, assign := true, target := (.method "_visit_type") },
+    { kinds := none, attr := "arguments", shape := .many, guard := .always, assign := true, target := (.method "_visit_input_value_definition") },
+    { kinds := none, attr := "directives", shape := .many, guard := .always, assign := true, target := (.method "_visit_directive") }]),
+  ("_visit_input_value_definition", [
+    { kinds := none, attr := "type", shape := .one, guard := .always, assign := true, target := (.method "_visit_type") },
+    { kinds := none, attr := "default_value", shape := .one, guard := .notNone, assign := true, target := (.disp "_visit_input_value") },
+    { kinds := none, attr := "directives", shape := .many, guard := .always, assign := true, target := (.method "_visit_directive") }]),
+  ("_visit_enum_value_definition", [
+    { kinds := none, attr := "directives", shape := .many, guard := .always, assign := true, target := (.method "_visit_directive") }]),
+  ("_visit_directive_definition", [
+    { kinds := none, attr := "arguments", shape := .many, guard := .always, assign := true, target := (.method "_visit_input_value_definition") }])
 ]
 
 /-- registry of `DispatchingVisitor.enter` (every default handler is a no-op: checked by the extractor) -/
 def enterRegistry : List (String × String) := [
-  ("Argument", "enter_argument"),
-  ("BooleanValue", "enter_boolean_value"),
-  ("Directive", "enter_directive"),
-  ("DirectiveDefinition", "enter_directive_definition"),
   ("Document", "enter_document"),
-  ("EnumTypeDefinition", "enter_enum_type_definition"),
-  ("EnumTypeExtension", "enter_enum_type_extension"),
-  ("EnumValue", "enter_enum_value"),
-  ("EnumValueDefinition", "enter_enum_value_definition"),
-  ("Field", "enter_field"),
-  ("FieldDefinition", "enter_field_definition"),
-  ("FloatValue", "enter_float_value"),
+  ("OperationDefinition", "enter_operation_definition"),
   ("FragmentDefinition", "enter_fragment_definition"),
+  ("VariableDefinition", "enter_variable_definition"),
+  ("Directive", "enter_directive"),
+  ("Argument", "enter_argument"),
+  ("SelectionSet", "enter_selection_set"),
+  ("Field", "enter_field"),
   ("FragmentSpread", "enter_fragment_spread"),
   ("InlineFragment", "enter_inline_fragment"),
-  ("InputObjectTypeDefinition", "enter_input_object_type_definition"),
-  ("InputObjectTypeExtension", "enter_input_object_type_extension"),
-  ("InputValueDefinition", "enter_input_value_definition"),
-  ("IntValue", "enter_int_value"),
-  ("InterfaceTypeDefinition", "enter_interface_type_definition"),
-  ("InterfaceTypeExtension", "enter_interface_type_extension"),
-  ("ListType", "enter_list_type"),
-  ("ListValue", "enter_list_value"),
-  ("NamedType", "enter_named_type"),
-  ("NonNullType", "enter_non_null_type"),
   ("NullValue", "enter_null_value"),
-  ("ObjectField", "enter_object_field"),
-  ("ObjectTypeDefinition", "enter_object_type_definition"),
-  ("ObjectTypeExtension", "enter_object_type_extension"),
+  ("IntValue", "enter_int_value"),
+  ("FloatValue", "enter_float_value"),
+  ("StringValue", "enter_string_value"),
+  ("BooleanValue", "enter_boolean_value"),
+  ("EnumValue", "enter_enum_value"),
+  ("Variable", "enter_variable"),
+  ("ListValue", "enter_list_value"),
   ("ObjectValue", "enter_object_value"),
-  ("OperationDefinition", "enter_operation_definition"),
+  ("ObjectField", "enter_object_field"),
+  ("NamedType", "enter_named_type"),
+  ("ListType", "enter_list_type"),
+  ("NonNullType", "enter_non_null_type"),
+  ("SchemaDefinition", "enter_schema_definition"),
   ("OperationTypeDefinition", "enter_operation_type_definition"),
   ("ScalarTypeDefinition", "enter_scalar_type_definition"),
-  ("ScalarTypeExtension", "enter_scalar_type_extension"),
-  ("SchemaDefinition", "enter_schema_definition"),
-  ("SchemaExtension", "enter_schema_extension"),
-  ("SelectionSet", "enter_selection_set"),
-  ("StringValue", "enter_string_value"),
+  ("ObjectTypeDefinition", "enter_object_type_definition"),
+  ("FieldDefinition", "enter_field_definition"),
+  ("InputValueDefinition", "enter_input_value_definition"),
+  ("InterfaceTypeDefinition", "enter_interface_type_definition"),
   ("UnionTypeDefinition", "enter_union_type_definition"),
+  ("EnumTypeDefinition", "enter_enum_type_definition"),
+  ("EnumValueDefinition", "enter_enum_value_definition"),
+  ("InputObjectTypeDefinition", "enter_input_object_type_definition"),
+  ("SchemaExtension", "enter_schema_extension"),
+  ("ScalarTypeExtension", "enter_scalar_type_extension"),
+  ("ObjectTypeExtension", "enter_object_type_extension"),
+  ("InterfaceTypeExtension", "enter_interface_type_extension"),
   ("UnionTypeExtension", "enter_union_type_extension"),
-  ("Variable", "enter_variable"),
-  ("VariableDefinition", "enter_variable_definition")
+  ("EnumTypeExtension", "enter_enum_type_extension"),
+  ("InputObjectTypeExtension", "enter_input_object_type_extension"),
+  ("DirectiveDefinition", "enter_directive_definition")
 ]
 
 /-- registry of `DispatchingVisitor.leave` (every default handler is a no-op: checked by the extractor) -/
 def leaveRegistry : List (String × String) := [
-  ("Argument", "leave_argument"),
-  ("BooleanValue", "leave_boolean_value"),
-  ("Directive", "leave_directive"),
-  ("DirectiveDefinition", "leave_directive_definition"),
   ("Document", "leave_document"),
-  ("EnumTypeDefinition", "leave_enum_type_definition"),
-  ("EnumTypeExtension", "leave_enum_type_extension"),
-  ("EnumValue", "leave_enum_value"),
-  ("EnumValueDefinition", "leave_enum_value_definition"),
-  ("Field", "leave_field"),
-  ("FieldDefinition", "leave_field_definition"),
-  ("FloatValue", "leave_float_value"),
+  ("OperationDefinition", "leave_operation_definition"),
   ("FragmentDefinition", "leave_fragment_definition"),
+  ("VariableDefinition", "leave_variable_definition"),
+  ("Directive", "leave_directive"),
+  ("Argument", "leave_argument"),
+  ("SelectionSet", "leave_selection_set"),
+  ("Field", "leave_field"),
   ("FragmentSpread", "leave_fragment_spread"),
   ("InlineFragment", "leave_inline_fragment"),
-  ("InputObjectTypeDefinition", "leave_input_object_type_definition"),
-  ("InputObjectTypeExtension", "leave_input_object_type_extension"),
-  ("InputValueDefinition", "leave_input_value_definition"),
-  ("IntValue", "leave_int_value"),
-  ("InterfaceTypeDefinition", "leave_interface_type_definition"),
-  ("InterfaceTypeExtension", "leave_interface_type_extension"),
-  ("ListType", "leave_list_type"),
-  ("ListValue", "leave_list_value"),
-  ("NamedType", "leave_named_type"),
-  ("NonNullType", "leave_non_null_type"),
   ("NullValue", "leave_null_value"),
-  ("ObjectField", "leave_object_field"),
-  ("ObjectTypeDefinition", "leave_object_type_definition"),
-  ("ObjectTypeExtension", "leave_object_type_extension"),
+  ("IntValue", "leave_int_value"),
+  ("FloatValue", "leave_float_value"),
+  ("StringValue", "leave_string_value"),
+  ("BooleanValue", "leave_boolean_value"),
+  ("EnumValue", "leave_enum_value"),
+  ("Variable", "leave_variable"),
+  ("ListValue", "leave_list_value"),
   ("ObjectValue", "leave_object_value"),
-  ("OperationDefinition", "leave_operation_definition"),
+  ("ObjectField", "leave_object_field"),
+  ("NamedType", "leave_named_type"),
+  ("ListType", "leave_list_type"),
+  ("NonNullType", "leave_non_null_type"),
+  ("SchemaDefinition", "leave_schema_definition"),
   ("OperationTypeDefinition", "leave_operation_type_definition"),
   ("ScalarTypeDefinition", "leave_scalar_type_definition"),
-  ("ScalarTypeExtension", "leave_scalar_type_extension"),
-  ("SchemaDefinition", "leave_schema_definition"),
-  ("SchemaExtension", "leave_schema_extension"),
-  ("SelectionSet", "leave_selection_set"),
-  ("StringValue", "leave_string_value"),
+  ("ObjectTypeDefinition", "leave_object_type_definition"),
+  ("FieldDefinition", "leave_field_definition"),
+  ("InputValueDefinition", "leave_input_value_definition"),
+  ("InterfaceTypeDefinition", "leave_interface_type_definition"),
   ("UnionTypeDefinition", "leave_union_type_definition"),
+  ("EnumTypeDefinition", "leave_enum_type_definition"),
+  ("EnumValueDefinition", "leave_enum_value_definition"),
+  ("InputObjectTypeDefinition", "leave_input_object_type_definition"),
+  ("SchemaExtension", "leave_schema_extension"),
+  ("ScalarTypeExtension", "leave_scalar_type_extension"),
+  ("ObjectTypeExtension", "leave_object_type_extension"),
+  ("InterfaceTypeExtension", "leave_interface_type_extension"),
   ("UnionTypeExtension", "leave_union_type_extension"),
-  ("Variable", "leave_variable"),
-  ("VariableDefinition", "leave_variable_definition")
+  ("EnumTypeExtension", "leave_enum_type_extension"),
+  ("InputObjectTypeExtension", "leave_input_object_type_extension"),
+  ("DirectiveDefinition", "leave_directive_definition")
 ]
 
-def table : Table := { methods := methods, visit := visitDispatch, dispatchers := dispatchers, slots := slots }
+/-- the wrapper runs the method of the class of the node RETURNED by `enter` when that class differs from the
+    argument's (observed on the real code by `probe_cross_kind`; true with proposed fix C18-W7) -/
+def crossKind : Bool := true
+
+def table : Table := { methods := methods, visit := visitDispatch, dispatchers := dispatchers, slots := slots, crossKind := crossKind }
 
 /-! witness documents, parsed by the real parser on this run (attribute `loc` dropped, ids = pre-order numbers) -/
 /-- `query Q($v: [Int!] = 1 @d, $u: Int!) { ... on T { a } } fragment F($w: Int) on T { a }` -/
